@@ -79,7 +79,7 @@ fn reparse_formula_hack(formula: &str, worksheets: &[String]) -> Result<String, 
     let tables = HashMap::new();
     let mut parser = new_parser_english(worksheets.to_owned(), defined_names, tables);
     let cell_reference = CellReferenceRC {
-        sheet: worksheets[0].clone(),
+        sheet: worksheets.first().cloned().unwrap_or_default(),
         column: 1,
         row: 1,
     };
